@@ -481,6 +481,23 @@ def gen_C14(c, rng, tier):
             kind = rng.choice(['large_then_small', 'alternating', 'geometric', 'random', 'constant'])
             vs = oracles.kahan_sequence(rng, fmt, kind, n)
             c.add(t, 'kahan', [toks(fmt, vs)], classes=['seq_' + kind, 'len_%s' % ('small' if n < 50 else 'large')], nontrivial=n >= 3)
+    gen_C14_runs(c, rng, tier)
+
+def gen_C14_runs(c, rng, tier):
+    """the same adversarial sequences through whole iterations: the integral of an integrand that books distributions, and bins that are
+    filled once or twice per call (an event and its counter-term), for the three integrators' common accumulator"""
+    for t in TYPES:
+        fmt = FMTS[t]
+        for _ in range(scale(tier, 8, 40)):
+            n = rng.choice([3, 50, scale(tier, 400, 3000), scale(tier, 1500, 20000)])
+            kind = rng.choice(['large_then_small', 'alternating', 'geometric', 'random', 'constant'])
+            vs = oracles.kahan_sequence(rng, fmt, kind, n)
+            twice = rng.random() < 0.6
+            dists = [[1, 1, fmt.tok(Fraction(0)), fmt.tok(Fraction(1)), fmt.tok(Fraction(0)), fmt.tok(Fraction(1)), b'sum']]
+            fills = [[0, ['p', 0], '-', ['v']]] * (2 if twice else 1)
+            s = spec_run('plain', fmt, dims=1, seed=rng.getrandbits(32), chk=['plain'], f=['tab', toks(fmt, vs)], dists=dists, fills=fills, ops=[['run', [n]], ['dump']])
+            c.add(t, 'run', s, classes=['seq_' + kind, 'iteration_with_distribution', 'bin_filled_twice_per_call' if twice else 'bin_filled_once_per_call'],
+                  nontrivial=n >= 3, kahan={'values': vs, 'twice': twice})
 
 # ------------------------------------------------------------------------------------------------
 @prop('C02', 'whole runs of the three integrators, 1-3 iterations, N in {0,1,2,3,5,8,17}, table integrands mixing zero/sign/huge/tiny/non-finite values and '
